@@ -53,6 +53,37 @@ class Rng:
 # --------------------------------------------------------------------------- errors
 
 
+class SimSpin(KeyboardInterrupt):
+    """One callback of the simulated loop has been running for many wall-clock seconds without
+    returning to the loop: the code under test spins (a real server would be frozen).  Derived
+    from KeyboardInterrupt so that asyncio's Task machinery lets it through to run_forever()."""
+
+
+# which loop is inside a callback right now, and what the watchdog saw at its previous tick
+_SPIN = {"loop": None, "seen": None, "ticks": 0}
+SPIN_TICKS = 4  # consecutive watchdog ticks (2 s each) inside the same callback
+
+
+def spin_tick():
+    """Called from the harness' interval timer (signal handler, main thread)."""
+    loop = _SPIN["loop"]
+    if loop is None:
+        _SPIN["seen"] = None
+        _SPIN["ticks"] = 0
+        return
+    cur = (id(loop), loop.steps)
+    if _SPIN["seen"] == cur:
+        _SPIN["ticks"] += 1
+        if _SPIN["ticks"] >= SPIN_TICKS:
+            _SPIN["seen"] = None
+            _SPIN["ticks"] = 0
+            _SPIN["loop"] = None
+            raise SimSpin(f"a single loop callback (step {loop.steps}) did not return for about {SPIN_TICKS * 2} wall-clock seconds")
+    else:
+        _SPIN["seen"] = cur
+        _SPIN["ticks"] = 1
+
+
 class SimDeadlock(Exception):
     """No ready handle and no timer while the main future is still pending."""
 
@@ -202,7 +233,9 @@ class SimLoop(asyncio.base_events.BaseEventLoop):
                         h()
             if self.steps > self.max_steps:
                 raise SimBudget(f"step cap exceeded ({self.steps})")
+            _SPIN["loop"] = self
             handle._run()
+            _SPIN["loop"] = None
         handle = None
 
     def at_step(self, n, fn):
